@@ -206,7 +206,9 @@ def ex(e):
     if h == "reduce":
         if MINIMAL[0]:
             return operand(e[1], 3) + " $" + ex(e[2]) + " " + operand(e[3], 3, True)
-        return paren(e[1]) + " $(" + ex(e[2]) + ") " + paren(e[3])
+        # the function must not be wrapped in parentheses: `$(init) (f)` would read `(init)(f)` as a call
+        assert e[3][0] in ("fn", "id"), e
+        return paren(e[1]) + " $(" + ex(e[2]) + ") " + ex(e[3])
     if h == "at":
         return paren(e[1]) + "[" + ex(e[2]) + "]"
     if h == "slice":
